@@ -208,12 +208,11 @@ func bucket(v, lo, hi int) string {
 	return "ok"
 }
 
-func run(c cipher.Block, bs int, src []byte) string {
+// run: enc and dec are writable windows of the caller's arena, src a read-only one
+func run(c cipher.Block, bs int, src, enc, dec []byte) string {
 	if c.BlockSize() != bs {
 		return "blocksize-fail"
 	}
-	enc := make([]byte, len(src))
-	dec := make([]byte, len(src))
 	for off := 0; off+bs <= len(src); off += bs {
 		blk := src[off : off+bs]
 		c.Encrypt(enc[off:off+bs], blk)
@@ -257,7 +256,19 @@ func exec1(o hx.Op) string {
 	if o.Cmd != "blk" {
 		return "bad-op"
 	}
-	key, src := o.Hex("key"), o.Hex("src")
+	// key, salt and src are read-only windows of one arena (sentinel-filled spare capacity behind each),
+	// the two destination buffers writable windows of the same arena: the constructor must not touch
+	// the key, Encrypt/Decrypt must write nothing but their 8/16 destination bytes
+	srcB := o.Hex("src")
+	var saltB []byte
+	if o.Has("salt") {
+		saltB = o.Hex("salt")
+	}
+	ar, in := build(spec{name: "key", data: o.Hex("key"), spare: 8}, spec{name: "salt", data: saltB, spare: 8},
+		spec{name: "src", data: srcB, spare: 8}, spec{name: "enc", data: make([]byte, len(srcB)), spare: 8, writable: true},
+		spec{name: "dec", data: make([]byte, len(srcB)), spare: 8, writable: true})
+	key, salt, src, enc, dec := in[0], in[1], in[2], in[3], in[4]
+	mut := mutated{}
 	var c cipher.Block
 	var err error
 	bs := 8
@@ -269,7 +280,7 @@ func exec1(o hx.Op) string {
 			if err2 != nil {
 				return "newcipher-fail"
 			}
-			if a, b := run(c, 8, src), run(c2, 8, src); a != b {
+			if a, b := run(c, 8, src, enc, dec), run(c2, 8, src, make([]byte, len(src)), make([]byte, len(src))); a != b {
 				return "newcipher-fail"
 			}
 		}
@@ -283,7 +294,7 @@ func exec1(o hx.Op) string {
 		c = x
 	case "blowfish-salted":
 		var x *blowfish.Cipher
-		x, err = blowfish.NewSaltedCipher(key, o.Hex("salt"))
+		x, err = blowfish.NewSaltedCipher(key, salt)
 		c = x
 	case "cast5":
 		var x *cast5.Cipher
@@ -299,10 +310,13 @@ func exec1(o hx.Op) string {
 	default:
 		return "bad-op"
 	}
+	mut.add(ar.changed())
 	if err != nil {
-		return "err"
+		return "err " + mut.String()
 	}
-	return run(c, bs, src)
+	r := run(c, bs, src, enc, dec)
+	mut.add(ar.changed())
+	return r + " " + mut.String()
 }
 
 func main() { hx.Main(hx.Harness{Gen: gen, Exec: exec}) }
